@@ -558,7 +558,12 @@ func RunC19(ctx *core.Ctx) *core.Violation {
 			op.val = drawInt(t, kw, isSigned(op.kind))
 			ref = refEncode(ref, m.le, kw, op.val)
 		} else {
-			op.b = genData(t, t.Draw(7), 2)
+			ln := t.Draw(7)
+			if t.Chance(1, 40) {
+				ln = t.Range(1000, 9000) // larger than a page
+				ctx.Count("probe_big_blob")
+			}
+			op.b = genData(t, ln, 2)
 			ref = append(ref, op.b...)
 		}
 		doWrite(w, op)
